@@ -208,6 +208,53 @@ func (r *Run) Build() {
 	r.Results = append(r.Results, res)
 }
 
+// BuildCancelledAt runs BuildWithContext with a context that is cancelled from inside the
+// n-th constructor invocation of the Build (n >= 1): Build must notice the cancellation before
+// the next singleton and fail, cleaning up what it created.
+func (r *Run) BuildCancelledAt(n int) {
+	opIdx := len(r.Ops)
+	r.Ops = append(r.Ops, Op{Kind: OpBuild})
+	res := OpResult{Op: opIdx}
+	ctx, cancel := context.WithCancel(context.Background())
+	defer cancel()
+	var mu sync.Mutex
+	seen := 0
+	r.Rec.SetHook(func(hp rt.HookPoint) {
+		if hp.Where != "ctor" {
+			return
+		}
+		mu.Lock()
+		seen++
+		hit := seen == n
+		mu.Unlock()
+		if hit {
+			cancel()
+		}
+	})
+	res.Call = r.Rec.BeginOp(opIdx, 0, fmt.Sprintf("BuildWithContext (cancelled inside constructor invocation %d)", n))
+	func() {
+		defer func() {
+			if p := recover(); p != nil {
+				r.BuildPanic = p
+				r.Poisoned = true
+			}
+		}()
+		r.Prov, r.BuildErr = r.Coll.BuildWithContext(ctx)
+	}()
+	r.Rec.SetHook(nil)
+	switch {
+	case r.BuildPanic != nil:
+		res.Class = "PANIC"
+		res.Panic = r.BuildPanic
+	default:
+		res.Class = Classify(r.BuildErr)
+		res.Err = r.BuildErr
+	}
+	res.Ret = r.Rec.EndOp(opIdx, 0, res.Class)
+	r.Built = r.BuildErr == nil && r.BuildPanic == nil && r.Prov != nil
+	r.Results = append(r.Results, res)
+}
+
 // target returns the godi.Provider behind harness scope id.
 func (r *Run) target(scope int) godi.Provider {
 	if scope == 0 {
